@@ -859,6 +859,8 @@ var malformed = []string{
 	"seq 0 0 t0;t1 2:t1:p -", "seq 0 1 t0;!t0 1:t0:s -", "seq 0 0 t0;= 1:t0:p -", "storm 3", "seq -1 0 t0 - -", "seq 0 0 t0; - -",
 	"seq 0 0 t0+ - -", "seq 00 0 t0 - -", "seq 0 0 t0;t0 01:t0:p -", "seq 0 0 t0@t1 - -", "seq 0 0 m0 - -", "seq 0 0 r0,p0 - -", "seq 0 0 r1 - -", "seq 0 0 r0;r0 1:r0:p -", "seq 0 0 t0@ - -",
 	"seq 0 0 t0;=@m0 - -", "seq 0 0 t0@m0;t0 1:m0:p -", "seq 0d0 0 t0 - -", "seq 0 0 v0;v0 1:v0:R -", "seq 0 0 t0;t0 1:t0:X -", "seq 0d 0 t0 - -", "seq d5 0 t0 - -", "seq 0d5d 0 t0 - -", "seq 0d3000 0 t0 - -",
+	"val", "val N", "val X -|3a38", "val N -|", "val N -|zz", "val N -|3A38", "val N h1+|3a38", "val N ~|3a38", "val N -|3a38#", "val N -|3a38#n#n",
+	"val N -|3a38;-|3a39;-|3a37;-|3a36", "val N -|3a38|", "val N -|683a39302d3830", "val N -|3a38,3a39,3a37,3a36,3a35", "val N -|3a38 x", "val N H1|3a38", "val N -|3a38#_", "val N -|c3a9",
 }
 
 func (p *prop) Generate(rng *core.Rand, tier string, emit func(string)) {
@@ -892,6 +894,7 @@ func (p *prop) Generate(rng *core.Rand, tier string, emit func(string)) {
 	if p.envErr == nil {
 		p.genKeys(rng.Fork(), emit)
 		genQuic(rng.Fork(), emit, map[string]int{"quick": 12, "thorough": 120, "search": 40}[tier])
+		p.genVals(rng.Fork(), emit)
 	}
 	frng := rng.Fork()
 	for i := 0; i < nScen; i++ {
@@ -946,6 +949,9 @@ func (p *prop) Run(line string) core.Outcome {
 	}
 	if len(f) > 0 && f[0] == "quic" {
 		return p.runQuic(f)
+	}
+	if len(f) > 0 && f[0] == "val" {
+		return p.runVal(f)
 	}
 	if len(f) != 6 || f[0] != "seq" {
 		return core.Outcome{Impl: "bad-op", Tags: []string{"trivial", "bad-op"}}
